@@ -1009,3 +1009,36 @@ func VerifC04InputKeyNil() {
 		}
 	}
 }
+
+// A field mapping from a map key that the predecessor never produces: whatever the verdict, the four paradigms give
+// the same one (with the key present they all succeed).
+func VerifC04MissingKey() {
+	ctx := context.Background()
+	vcfg("fifo", 1)
+	vcfg("selectfirst", 1)
+	present := vchoose("present", 2) == 1
+	wf := NewWorkflow[string, string]()
+	wf.AddLambdaNode("a", InvokableLambda(func(ctx context.Context, in string) (map[string]any, error) {
+		if present {
+			return map[string]any{"x": in, "k": "v"}, nil
+		}
+		return map[string]any{"x": in}, nil
+	})).AddInput(START)
+	wf.AddLambdaNode("b", InvokableLambda(func(ctx context.Context, in map[string]any) (string, error) {
+		s, _ := in["f"].(string)
+		return "b:" + s, nil
+	})).AddInput("a", MapFields("k", "f"))
+	wf.End().AddInput("b")
+	r, err := wf.Compile(ctx)
+	vassert(err == nil, "workflow compiles")
+	outs, errs := c04Four(r, "p", "q")
+	for k := 1; k < 4; k++ {
+		vassert((errs[k] == nil) == (errs[0] == nil), "a mapping from a key the predecessor never produces: "+c04ParNames[k]+" gives the verdict Invoke gives")
+		if errs[k] == nil && errs[0] == nil {
+			vassert(outs[k] == outs[0], c04ParNames[k]+" gives the result Invoke gives")
+		}
+	}
+	if present {
+		vassert(errs[0] == nil && outs[0] == "b:v", "with the key present the mapped value arrives")
+	}
+}
